@@ -19,7 +19,11 @@ type DNode struct {
 	PVals   []string `json:"pvals,omitempty"`  // FromStr values / ParamSource values
 	NoOut   bool     `json:"no_out,omitempty"` // process without out-ports (writes a side file through a param-less echo)
 	Items   int      `json:"items,omitempty"`  // src: number of files
+	Aux     bool     `json:"aux,omitempty"`    // process with a second out-port `aux`; a consumer names it "<process>#aux"
 }
+
+// the process behind an upstream reference ("P3" or "P3#aux")
+func baseName(u string) string { return strings.TrimSuffix(u, "#aux") }
 
 type Dag struct {
 	Nodes []DNode `json:"nodes"`
@@ -27,6 +31,7 @@ type Dag struct {
 }
 
 func (g Dag) node(name string) *DNode {
+	name = baseName(name)
 	for i := range g.Nodes {
 		if g.Nodes[i].Name == name {
 			return &g.Nodes[i]
@@ -81,6 +86,9 @@ func (g Dag) desc() (*Desc, map[string]string) {
 				}
 			} else {
 				spec := CmdSpec{Proc: n.Name, Ins: ins, Outs: []string{"out"}, Params: params}
+				if n.Aux {
+					spec.Outs = []string{"out", "aux"}
+				}
 				node.Cmd = spec.Pattern()
 				pat := n.Name
 				for _, i := range ins {
@@ -90,13 +98,20 @@ func (g Dag) desc() (*Desc, map[string]string) {
 					pat += ".{p:p}"
 				}
 				node.Outs = map[string]string{"out": pat + ".o"}
+				if n.Aux {
+					node.Outs["aux"] = pat + ".x"
+				}
 			}
 			if n.PIn == "@" {
 				node.FromStr = map[string][]string{"p": n.PVals}
 			}
 			d.Nodes = append(d.Nodes, node)
 			for i, up := range n.Ins {
-				d.Edges = append(d.Edges, Edge{From: up + ".out", To: fmt.Sprintf("%s.in%d", n.Name, i)})
+				from := up + ".out"
+				if strings.HasSuffix(up, "#aux") {
+					from = baseName(up) + ".aux"
+				}
+				d.Edges = append(d.Edges, Edge{From: from, To: fmt.Sprintf("%s.in%d", n.Name, i)})
 			}
 			if n.PIn != "" && n.PIn != "@" {
 				from := n.PIn + ".out"
@@ -121,7 +136,7 @@ func (g Dag) closure(targets []string) map[string]bool {
 		set[n] = true
 		nd := g.node(n)
 		for _, u := range nd.Ins {
-			visit(u)
+			visit(baseName(u))
 		}
 		if nd.PIn != "" && nd.PIn != "@" {
 			visit(nd.PIn)
@@ -164,6 +179,9 @@ func (g Dag) counts() map[string]int {
 				m = 1 // a process without ports runs exactly once
 			}
 			c[n.Name] = m
+			if n.Aux {
+				c[n.Name+"#aux"] = m
+			}
 		}
 	}
 	return c
@@ -254,7 +272,7 @@ func genBalancedDag(r *Rng, allowNoOut bool, streamMax int) Dag {
 			// do not consume from processes without ports (they emit exactly one item)
 			ins := []string{}
 			for _, u := range n.Ins {
-				if !portless[u] {
+				if !portless[baseName(u)] {
 					ins = append(ins, u)
 				}
 			}
@@ -299,6 +317,9 @@ func genDag(r *Rng, allowNoOut bool, streamMax int) Dag {
 			if m.Kind == "src" || (m.Kind == "proc" && !m.NoOut) {
 				cands = append(cands, m.Name)
 			}
+			if m.Kind == "proc" && m.Aux {
+				cands = append(cands, m.Name+"#aux")
+			}
 		}
 		nin := r.Intn(3)
 		if i == 0 && nin == 0 {
@@ -324,6 +345,9 @@ func genDag(r *Rng, allowNoOut bool, streamMax int) Dag {
 		if allowNoOut && !noOutUsed && r.Intn(4) == 0 {
 			n.NoOut = true
 			noOutUsed = true
+		}
+		if allowNoOut && !n.NoOut && r.Intn(4) == 0 {
+			n.Aux = true // a second out-port: consumed by a later process or, if nobody takes it, by the sink
 		}
 		g.Nodes = append(g.Nodes, n)
 	}
